@@ -541,3 +541,27 @@ Definition check_resume (c : backend * task * nat * list entry * list bool) : bo
   let '(b, t, k, ents, surv) := c in
   let after := resumed b t k (fun _ => true) ents in
   bools_eqb (map (fun e => existsb (entry_eqb e) after) ents) surv.
+
+(* ------------------------------------------------------------------ names of the per-level database files
+   (MBTilesLevelCache): which files does remove_level_tiles_before(level, remove_all=True) unlink *)
+From Coq Require String Ascii Decimal DecimalString DecimalZ.
+Section LevelFiles.
+Import String Ascii.
+Local Open Scope string_scope.
+
+(* "%s" % level for an int level *)
+Definition level_name (l : Z) : string := DecimalString.NilEmpty.string_of_int (Z.to_int l).
+(* MBTilesLevelCache._get_level: os.path.join(cache_dir, '%s.mbtile' % level) *)
+Definition level_file (l : Z) : string := level_name l ++ ".mbtile".
+Fixpoint prefixb (p s : string) : bool :=
+  match p, s with
+  | EmptyString, _ => true
+  | String a p', String b s' => Ascii.eqb a b && prefixb p' s'
+  | _, _ => false
+  end.
+
+(* remove_level_tiles_before(remove_all): os.unlink(level file); glob "<level file>-*" *)
+Definition unlinked_with_level (l : Z) (f : string) : bool :=
+  String.eqb f (level_file l) || prefixb (level_file l ++ "-") f.
+
+End LevelFiles.
